@@ -440,6 +440,9 @@ fn mutate(rng: &mut StdRng, w: &mut Wit, pick: usize) -> String {
         // compressed comparisons: a digest that differs from the right one but has the SAME limb sum (what survives when four
         // per-limb equalities are folded into one equality of sums - seeded C03, second round)
         "root-sumshift+troot+bhash-follow", "troot-sumshift+bhash-follows", "nullifier-sumshift", "root-sumshift+troot+bhash-follow",
+        // a NON-zero block hash whose limbs sum to 0 mod p, zero outputs, claimed dummy, nullifier not bound: a dummy test folded
+        // into one comparison of the limb sum would let it through (seeded C13, second round, at the leaf)
+        "bhash-zerosum+outs-zero+claimed-dummy+foreign-nullifier",
     ];
     // kinds are cycled, not drawn: every kind is exercised once per muts.len() mutations, whatever the seed
     let m = muts[pick % muts.len()];
@@ -483,6 +486,7 @@ fn mutate(rng: &mut StdRng, w: &mut Wit, pick: usize) -> String {
         "number-2^32" => w.hdr.number = (1 << 32) + 1,
         "outs-zero-keep-bhash" => { w.out1 = 0; w.out2 = 0; w.flag = Some(if w.bhash == [0; 4] { 0 } else { 1 }); }
         "outs-zero-and-bhash-zero" => { w.out1 = 0; w.out2 = 0; w.bhash = [0; 4]; w.flag = Some(0); }
+        "bhash-zerosum+outs-zero+claimed-dummy+foreign-nullifier" => { w.out1 = 0; w.out2 = 0; w.bhash = [P - 1, 1, 0, 0]; w.flag = Some(0); w.nhash = rd(rng); }
         "sibling-changed" => { let l = rng.gen_range(0..MAXD); w.sibs[l][1][3] ^= 1; }
         "aid-foreign-both" => { let x = rd(rng); w.aid = x; w.lto = x; }
         "in+1-leafhash-stale" => w.input += 1,
